@@ -110,6 +110,8 @@ func runC04(p *core.Prog, r *core.Report) {
 	c08R9(p, r, "C04.R13")
 	// 'the target already has this child' is answered per repository: the response cache is keyed by the whole reference (shared with C10.R2)
 	c10R2(p, r, "C04.R14")
+	// a child that waited for a shared blob learns whether that copy failed (shared with C03.R4)
+	c03R4(p, r, "C04.R15")
 }
 
 // resolveLit returns the function literal a go statement runs: a literal, or a local variable
